@@ -19,10 +19,10 @@
 (*   HistoryOK     the history chain is the sequence of redirect responses                            *)
 EXTENDS Client, TLC, Json
 
-CONSTANTS Hosts, Paths, Names, DomAttrs, PathAttrs, Kinds, Codes, Locs, Methods, Schemes, Reads, Allows, MaxOpens, MaxResp, MaxSC
-VARIABLES jar, cjar, phase, cur, hist, origin, allow, nopen, nresp, act
-vars == <<jar, cjar, phase, cur, hist, origin, allow, nopen, nresp, act>>
-View == <<jar, cjar, phase, cur, hist, origin, allow, nopen, nresp>>
+CONSTANTS Hosts, Paths, Names, DomAttrs, PathAttrs, Kinds, Codes, Locs, Methods, Schemes, Reads, Allows, MaxOpens, MaxResp, MaxSC, Label
+VARIABLES jar, cjar, phase, cur, hist, origin, allow, nopen, nresp, bad, act
+vars == <<jar, cjar, phase, cur, hist, origin, allow, nopen, nresp, bad, act>>
+View == <<jar, cjar, phase, cur, hist, origin, allow, nopen, nresp, bad>>
 
 \* ---------------------------------------------------------------- the universe (code points)
 H_ex == <<101,120,97,109,112,108,101,46,99,111,109>>                        \* example.com
@@ -90,75 +90,69 @@ SCSeqs(host) == {<<>>} \cup {<<s>> : s \in SC1(host)} \cup (IF MaxSC >= 2 THEN {
 Responses(host) == UNION {{[scs |-> scs, code |-> c, loc |-> l, read |-> rd] : scs \in SCSeqs(host),
                               l \in (IF c \in RedirectCodes THEN Locs ELSE {NoLoc}), rd \in (IF c \in {307, 308} THEN Reads ELSE {FALSE})} : c \in Codes}
 NoReq == [m |-> "", sch |-> "", host |-> <<>>, path |-> <<>>, qs |-> <<>>, body |-> <<>>]
-\* the host relation of redirects, tabulated once (TLC evaluates constant definitions a single time)
 AllHosts == Hosts \cup {l.host : l \in {m \in Locs : m.form = "abs"}}
-RelITab == [p \in AllHosts \X AllHosts |-> HostRelI(p[1], p[2])]
-RelCTab == [p \in AllHosts \X AllHosts |-> HostRel(p[1], p[2])]
 MaxChain == Cardinality(Locs) * Cardinality(Codes \cap RedirectCodes)
 
 \* ---------------------------------------------------------------- the state machine
-Init == allow \in Allows /\ jar = {} /\ cjar = {} /\ phase = "idle" /\ cur = NoReq /\ hist = <<>> /\ origin = <<>> /\ nopen = 0 /\ nresp = 0 /\ act = [op |-> "init"]
+\* `bad` collects the names of the contract clauses that the transition just taken violates (always {} for a conforming
+\* implementation shape, so it does not multiply states); one invariant per clause names the failure.
+Init == allow \in Allows /\ jar = {} /\ cjar = {} /\ phase = "idle" /\ cur = NoReq /\ hist = <<>> /\ origin = <<>> /\ nopen = 0 /\ nresp = 0
+        /\ bad = {} /\ act = [op |-> "init"]
 
 Open == /\ phase = "idle" /\ nopen < MaxOpens
         /\ \E m \in Methods, s \in Schemes, h \in Hosts, p \in Paths :
-             LET q == [m |-> m, sch |-> s, host |-> h, path |-> p, qs |-> <<>>, body |-> BodyOf(m)] IN
+             LET q == [m |-> m, sch |-> s, host |-> h, path |-> p, qs |-> <<>>, body |-> BodyOf(m)]
+                 sent == SendI(jar, h, p) IN
              /\ cur' = q /\ phase' = "wait" /\ hist' = <<>> /\ origin' = h /\ nopen' = nopen + 1
              /\ UNCHANGED <<jar, cjar, nresp, allow>>
-             /\ act' = [op |-> "open", req |-> q, sent |-> SendI(jar, h, p)]
+             /\ bad' = IF sent = Project(cjar, h, p) THEN {} ELSE {"SentOK"}
+             /\ act' = IF Label THEN [op |-> "open", req |-> q, sent |-> sent] ELSE [op |-> "open"]
 
 Seen(h, r) == \E k \in 1..Len(h) : h[k].code = r.code /\ h[k].loc = r.loc
 Respond == /\ phase = "wait" /\ nresp < MaxResp
            /\ \E r \in Responses(cur.host) :
                 LET j2 == ApplyI(jar, cur.host, cur.path, r.scs)
+                    cj2 == Apply(cjar, cur.host, cur.path, r.scs)
                     redirect == r.code \in RedirectCodes
                     tgt == Target(r.loc, cur)
-                    rel == RelITab[<<tgt.host, cur.host>>]
+                    \* ---- implementation shape (Client.open / resolve_redirect)
+                    rel == HostRelI(tgt.host, cur.host)
                     out == IF ~redirect THEN "done"
                            ELSE IF Variant # "noloop" /\ Seen(hist, r) THEN "loop"
                            ELSE IF rel = "other" THEN "external"
                            ELSE IF rel = "sub" /\ ~allow THEN "subdomain" ELSE "follow"
+                    follow == out = "follow"
                     nxt == [m |-> NextMethodI(r.code, cur.m), sch |-> tgt.sch, host |-> tgt.host, path |-> tgt.path, qs |-> tgt.qs,
                             body |-> NextBodyI(r.code, cur.body, r.read)]
                     h2 == Append(hist, [code |-> r.code, loc |-> r.loc])
-                IN /\ jar' = j2 /\ cjar' = Apply(cjar, cur.host, cur.path, r.scs)
+                    sent == IF follow THEN SendI(IF Variant = "stale" THEN jar ELSE j2, tgt.host, tgt.path) ELSE {}
+                    \* ---- contract
+                    relC == HostRel(tgt.host, cur.host)
+                    hostC == CASE relC = "same" -> "follow" [] relC = "sub" -> (IF allow THEN "follow" ELSE "subdomain") [] OTHER -> "external"
+                    viol == (IF follow /\ sent # Project(cj2, tgt.host, tgt.path) THEN {"SentOK"} ELSE {})        \* cookies set on the redirect response go to the next hop
+                      \cup (IF follow /\ (nxt.m # NextMethod(r.code, cur.m) \/ nxt.body # NextBody(r.code, cur.body)) THEN {"MethodBodyOK"} ELSE {})
+                      \cup (IF redirect /\ out # "loop" /\ out # hostC THEN {"HostOK"} ELSE {})
+                      \cup (IF (out = "done") # ~redirect THEN {"FollowOK"} ELSE {})                           \* "until a non-redirect status is returned"
+                      \cup (IF redirect /\ ((out = "loop") # Seen(hist, r)) THEN {"LoopOK"} ELSE {})
+                IN /\ jar' = j2 /\ cjar' = cj2
                    /\ nresp' = nresp + 1 /\ nopen' = nopen /\ allow' = allow
-                   /\ IF out = "follow" THEN cur' = nxt /\ phase' = "wait" /\ hist' = h2 /\ origin' = origin
+                   /\ IF follow THEN cur' = nxt /\ phase' = "wait" /\ hist' = h2 /\ origin' = origin
                       ELSE cur' = NoReq /\ phase' = "idle" /\ hist' = <<>> /\ origin' = <<>>
-                   /\ act' = [op |-> "resp", resp |-> r, out |-> out, history |-> IF out = "follow" THEN h2 ELSE hist,
-                              sent |-> IF out = "follow" THEN SendI(IF Variant = "stale" THEN jar ELSE j2, tgt.host, tgt.path) ELSE {}]
+                   /\ bad' = viol
+                   /\ act' = IF Label THEN [op |-> "resp", resp |-> r, out |-> out, history |-> IF follow THEN h2 ELSE hist, sent |-> sent] ELSE [op |-> "resp"]
 Next == Open \/ Respond
 
-\* ---------------------------------------------------------------- the contract, on every state
+\* ---------------------------------------------------------------- the contract
 KeysUnique == \A c, d \in jar : KeyOf(c) = KeyOf(d) => c = d
 JarAgrees == jar = cjar
 AllRequestsOK == \A h \in Hosts, p \in Paths : SendI(jar, h, p) = Project(cjar, h, p)
 HopsBounded == Len(hist) <= MaxChain
-TypeOK == phase \in {"idle", "wait"} /\ (phase = "wait" => cur.host \in Hosts \cup {l.host : l \in Locs})
-
-\* ---------------------------------------------------------------- the contract, on every transition
-IsResp == act'.op = "resp"
-Followed == IsResp /\ act'.out = "follow"
-SentStep ==
-  CASE act'.op = "open" -> act'.sent = Project(cjar, act'.req.host, act'.req.path)
-    [] Followed -> act'.sent = Project(cjar', cur'.host, cur'.path)                \* cookies set on the redirect response go to the next hop
-    [] OTHER -> TRUE
-MethodBodyStep == Followed => cur'.m = NextMethod(act'.resp.code, cur.m) /\ cur'.body = NextBody(act'.resp.code, cur.body)
-TargetStep == Followed => [sch |-> cur'.sch, host |-> cur'.host, path |-> cur'.path, qs |-> cur'.qs] = Target(act'.resp.loc, cur)
-HostStep == IsResp /\ act'.resp.code \in RedirectCodes /\ act'.out # "loop" =>
-              LET rel == RelCTab[<<Target(act'.resp.loc, cur).host, cur.host>>] IN
-              CASE rel = "same" -> act'.out = "follow"
-                [] rel = "sub" -> act'.out = (IF allow THEN "follow" ELSE "subdomain")
-                [] OTHER -> act'.out = "external"
-FollowStep == IsResp => (act'.out = "done" <=> act'.resp.code \notin RedirectCodes)      \* "until a non-redirect status is returned"
-LoopStep == IsResp /\ act'.resp.code \in RedirectCodes => (act'.out = "loop" <=> Seen(hist, act'.resp))
-HistoryStep == Followed => hist' = Append(hist, [code |-> act'.resp.code, loc |-> act'.resp.loc]) /\ act'.history = hist'
-SentOK == [][SentStep]_vars
-MethodBodyOK == [][MethodBodyStep]_vars
-TargetOK == [][TargetStep]_vars
-HostOK == [][HostStep]_vars
-FollowOK == [][FollowStep]_vars
-LoopOK == [][LoopStep]_vars
-HistoryOK == [][HistoryStep]_vars
+TypeOK == phase \in {"idle", "wait"} /\ (phase = "wait" => cur.host \in AllHosts)
+SentOK == "SentOK" \notin bad
+MethodBodyOK == "MethodBodyOK" \notin bad
+HostOK == "HostOK" \notin bad
+FollowOK == "FollowOK" \notin bad
+LoopOK == "LoopOK" \notin bad
 
 Export == PrintT(ToJson([pre |-> [allow |-> allow, jar |-> jar, phase |-> phase, cur |-> cur, hist |-> hist, nopen |-> nopen, nresp |-> nresp], act |-> act',
                          post |-> [allow |-> allow', jar |-> jar', phase |-> phase', cur |-> cur', hist |-> hist', nopen |-> nopen', nresp |-> nresp']]))
